@@ -21,6 +21,7 @@ func init() {
 			ruleSegmentsEmitOrFail(c, "R1")
 			ruleStrictValidated(c, "R2")
 			ruleStrictReachesValidator(c, "R3")
+			ruleStrictLiveness(c, "R3b")
 			ruleMissingParamFails(c, "R4")
 			ruleNameCleaned(c, "R5")
 			ruleParamLookupCommaOk(c, "R4")
@@ -651,5 +652,45 @@ func ruleNameCleaned(c *Ctx, rule string) {
 				o.Path = c.P.PathString(path)
 			}
 		})
+	}
+}
+
+// ruleStrictLiveness is C10.R3b: the tree's URL builder succeeds only for a *live* route. The node found under the
+// pattern may be an interior node that exists only because two routes share a prefix (or whose handlers were all
+// removed by Prefix.Clean of its children's siblings): every successful return lies behind the non-nil test of the
+// looked-up node and behind `len(node.handlers) > 0` (D26).
+func ruleStrictLiveness(c *Ctx, rule string) {
+	a := c.A
+	c.R.Rule(c.R.Property+"."+rule, 1, "strict URL building fails unless the pattern is a live route: the node found has handlers")
+	f := a.TreeURL
+	var lookups []*ssa.Call
+	an.AllInstrs(f, func(in ssa.Instruction) {
+		call, ok := in.(*ssa.Call)
+		if !ok {
+			return
+		}
+		g := an.StaticCallee(&call.Call)
+		if g == nil || !an.InModule(g) || !isPtrToNamed(call.Type(), a.NodeT) {
+			return
+		}
+		lookups = append(lookups, call)
+	})
+	if len(lookups) == 0 {
+		c.R.Add(rule, c.fk(f), "lookup/exists", c.P.Pos(f.Pos()), false, "the tree's URL builder no longer looks the pattern up in the route table")
+		return
+	}
+	for _, lk := range lookups {
+		node := an.AP(lk)
+		path := (&an.Query{
+			Target: func(in ssa.Instruction) bool {
+				r, ok := in.(*ssa.Return)
+				return ok && in.Parent() == f && an.IsSuccessReturn(r)
+			},
+			BlockEdge: func(b *ssa.BasicBlock, succ int) bool { return lenPositiveTermEdge(c, b, succ, node+"."+a.FHandlers) },
+		}).Search(an.After(lk))
+		o := c.R.Add(rule, c.fk(f), "found-node/has-handlers", c.pos(lk), path == nil, ifelse(path == nil, "every successful return is behind len(handlers) > 0 of the node found", "the URL of a pattern that is only a shared prefix of registered routes (an interior node without handlers) is built successfully in strict mode: not a live route"))
+		if path != nil {
+			o.Path = c.P.PathString(path)
+		}
 	}
 }
